@@ -243,6 +243,7 @@ pub struct ProvStats {
     pub vertices_intersection: usize,
     pub rings_checked: usize,
     pub exact_vertices: usize,
+    pub divisions_logged: usize,
 }
 
 /// `assembled`: rings were assembled by the sweep (bounding boxes not disjoint) and must be CCW.
